@@ -8,9 +8,11 @@ import (
 	"bytes"
 	"encoding/json"
 	"fmt"
+	"io"
 	"os"
 	"path/filepath"
 	"runtime"
+	"sort"
 	"strings"
 	"sync"
 	"sync/atomic"
@@ -379,12 +381,25 @@ func runCrash(c *Case, replay bool) (*failure, []string) {
 			if err != nil {
 				return &failure{"child-error", err.Error()}, classes
 			}
-			pts := drive.AllCrashPoints(prof)
-			if len(pts) == 0 {
+			// stratified by site (rare sites such as wal.frag.between get the same
+			// weight as the frequent ones), then a hit number of that site
+			var sites []string
+			for s := range prof {
+				sites = append(sites, s)
+			}
+			sort.Strings(sites)
+			if len(sites) == 0 {
 				rd.Clean = true
 			} else {
-				pt := pts[int(rd.SelA)%len(pts)]
-				rd.Site, rd.N = pt.Site, pt.N
+				rd.Site = sites[int(rd.SelA)%len(sites)]
+				rd.N = 1 + int(rd.SelB)%prof[rd.Site]
+				// every third plan aims at a torn tail: die between the fragments of a
+				// large entry, preferring late hits (the 64 KiB log buffer has then
+				// spilled a cut record into the file)
+				if fh := prof["wal.frag.between"]; fh > 0 && rd.SelA%3 == 0 {
+					rd.Site = "wal.frag.between"
+					rd.N = 1 + fh/2 + int(rd.SelB)%(fh-fh/2)
+				}
 			}
 		}
 		if !rd.Clean {
@@ -436,9 +451,21 @@ func runCrash(c *Case, replay bool) (*failure, []string) {
 		writes = cand[:held]
 		if res.Crashed {
 			classes = append(classes, "crash_round")
+			if strings.HasPrefix(rd.Site, "wal.frag.") {
+				classes = append(classes, "crash_between_fragments")
+			}
+			if tornTail(dir) {
+				classes = append(classes, "torn_tail_after_crash(measured)")
+			}
 		}
-		// recover: open and close cleanly so the next round starts from a recovered directory,
-		// and check the statistics did not fall behind the log
+		// The next round's child does the recovery itself (a parent open in between
+		// would hand the next process a clean, already repaired log and hide defects
+		// of "recover and write in the same process"). Only after the LAST round the
+		// parent opens the directory and checks the statistics did not fall behind.
+		if ri != len(c.Rounds)-1 {
+			from = to
+			continue
+		}
 		e, err := engine.NewEngineFacade(dir)
 		if err != nil {
 			return &failure{"open-error@" + siteClass(rd, res), err.Error()}, classes
@@ -453,6 +480,24 @@ func runCrash(c *Case, replay bool) (*failure, []string) {
 		from = to
 	}
 	return nil, classes
+}
+
+// tornTail reports whether the newest log file does not end on an entry boundary.
+func tornTail(dir string) bool {
+	files, _ := wal.FindWALFiles(filepath.Join(dir, "wal"))
+	if len(files) == 0 {
+		return false
+	}
+	r, err := wal.OpenReader(files[len(files)-1])
+	if err != nil {
+		return false
+	}
+	defer r.Close()
+	for {
+		if _, err := r.ReadEntry(); err != nil {
+			return err != io.EOF
+		}
+	}
 }
 
 func siteClass(rd *drive.CrashRound, res *drive.ChildResult) string {
@@ -494,9 +539,19 @@ func TestProp(t *testing.T) {
 func TestPropCrash(t *testing.T) {
 	o := opts()
 	o.MaxSteps = 30
+	// values of several fragments: a crash between fragments leaves a torn tail,
+	// after which the engine must start a new log file and still continue the numbering
+	o.Val.Big = true
 	delete(o.Weights, "reopen")
 	rapid.Check(t, func(t *rapid.T) {
 		p := gen.Program(t, o)
+		// sprinkle entries of several fragments (100-300 KiB) so that "between fragments" exists
+		nbig := rapid.IntRange(0, 3).Draw(t, "nbig")
+		for i := 0; i < nbig && len(p.Steps) > 0; i++ {
+			at := rapid.IntRange(0, len(p.Steps)-1).Draw(t, "bigat")
+			p.Steps[at] = drive.Step{Op: "put", K: rapid.IntRange(0, len(p.Keys)-1).Draw(t, "bigk"),
+				V: &drive.Val{Len: rapid.IntRange(100*1024, 300*1024).Draw(t, "biglen"), Tag: uint32(800000 + i)}}
+		}
 		nr := rapid.IntRange(1, 3).Draw(t, "rounds")
 		var rounds []drive.CrashRound
 		prev := 0
@@ -505,7 +560,7 @@ func TestPropCrash(t *testing.T) {
 			if i < nr-1 {
 				to = rapid.IntRange(prev, len(p.Steps)).Draw(t, "to")
 			}
-			rounds = append(rounds, drive.CrashRound{To: to, Clean: rapid.IntRange(0, 4).Draw(t, "clean") == 0, SelA: rapid.Uint32().Draw(t, "selA")})
+			rounds = append(rounds, drive.CrashRound{To: to, Clean: rapid.IntRange(0, 4).Draw(t, "clean") == 0, SelA: rapid.Uint32().Draw(t, "selA"), SelB: rapid.Uint32().Draw(t, "selB")})
 			prev = to
 		}
 		c := Case{Program: p, Rounds: rounds}
